@@ -925,6 +925,18 @@ theorem C03_src_value_shapes :
       [("err := dec.jd.Decode(raw); err != nil", "err"), ("err := json.Compact(buf, *raw); err != nil", "err")] := by
   decide
 
+/-- **the integer arm of `scalarReflectFromGo` ↔ `decodeScalar` for int32 / int64 / uint32 / uint64**
+(round 4): the conversions applied to the INPUT are exactly: pointer unwrapping (`reflect`), for a
+`json.Number` `strconv.ParseUint(text, 10, 64)` (UINT64) or `Number.Int64()` (= `ParseInt(text, 10, 64)`),
+and for strings `ParseInt` / `ParseUint` once per format. There is no route through `float64`
+(`Number.Float64`, `ParseFloat`, a helper): a bare number in fraction / exponent syntax is a syntax error
+for an integer field, as in the model's `parseInt` / `parseUint` — never a rounded neighbour. -/
+theorem C03_src_integer_conversions :
+    reflectFromGoIntegerConversions =
+      ["reflect.ValueOf", "rv.Kind", "rv.IsNil", "rv.Elem", "rv.Interface", "strconv.ParseUint",
+       "numVal.String", "numVal.Int64", "strconv.ParseInt", "strconv.ParseInt", "strconv.ParseUint",
+       "strconv.ParseUint"] := by decide
+
 theorem C03_src_extractor_ok : codecExtractorOk = true := by decide
 
 end SourceFacts
